@@ -53,3 +53,87 @@ def _shape_rows(repo):
 
 table('env-shape-names', props=('C19',), rows=_shape_rows,
       reads=('sc3/synth/envelope.py',))
+
+
+# ---- client-side evaluation: Env._env_at (lin / step / hold / numeric curve ~ 0) ---------
+import z3
+from vf.pyvc.spec import contract, Loop
+from vf.pyvc.values import *
+
+F = 'sc3/synth/envelope.py'
+DATA = z3.Array('env_data', z3.IntSort(), z3.RealSort())
+NSTAGES = z3.Int('env_num_stages')
+SHAPE = z3.Function('env_shape', z3.IntSort(), z3.IntSort())       # shape number stored at index i
+
+
+def data_kind(eng, name):
+    """one channel of _envgen_format(): (level0, n, rel, loop, [level, dur, shape, curve] * n)"""
+    def get(eng_, i, st_):
+        si = z3.simplify(i)
+        if z3.is_int_value(si) and si.as_long() == 1:
+            return vint(NSTAGES)
+        # shape numbers live at 6, 10, 14, ...: integers
+        return V('real', DATA[i], ival=None, extra={'index': i})
+    return V('seq', extra={'len': 4 + 4 * NSTAGES, 'get': get})
+
+
+def h_compare(eng, op, a, b, st, node):
+    import ast
+    # shape == <number>: shapes are the integers stored in the data
+    for p, q in ((a, b), (b, a)):
+        if p.k == 'real' and p.extra and 'index' in p.extra and q.k == 'int' \
+                and isinstance(op, (ast.Eq, ast.NotEq)):
+            r = SHAPE(p.extra['index']) == q.z
+            return z3.Not(r) if isinstance(op, ast.NotEq) else r
+    return None
+
+
+def seg(c):
+    """(start level, target level, begin, end) of the segment the result comes from"""
+    e = c.st.env
+    return (to_real(e['start_level']), to_real(e['target_level']),
+            to_real(e['begin_time']), to_real(e['end_time']))
+
+
+def at_post(c):
+    e = c.st.env
+    r = c.result
+    sl, tl, bt, et = seg(c) if 'target_level' in e else (to_real(e['start_level']),) * 2 + (z3.RealVal(0),) * 2
+    inside = c.time < et
+    after = z3.Implies(z3.Not(inside), r == to_real(e['start_level']))   # holds the last level
+    if 'i' not in e:
+        return after
+    lo = z3.If(sl <= tl, sl, tl)
+    hi = z3.If(sl <= tl, tl, sl)
+    sh = SHAPE(e['i'].z + 2)
+    between = z3.And(lo <= r, r <= hi)
+    return z3.And(after, z3.Implies(inside, z3.And(
+        z3.Implies(z3.Or(sh == 1, sh == 0, sh == 8), between),            # lin, step, hold
+        z3.Implies(sh == 0, r == tl),                                      # step jumps immediately
+        z3.Implies(sh == 8, r == sl),                                      # hold keeps the previous level
+        z3.Implies(z3.And(sh == 1, c.time == bt), r == sl))))              # at the breakpoint: its level
+
+
+def at_inv(c, L):
+    # begin_time is the end of the previous segment, never after `time`;
+    # start_level is the level reached there
+    return z3.And(L.begin_time == L.end_time, L.begin_time <= c.time,
+                  L.i >= 0)
+
+
+contract(F, 'Env._env_at', props=('C19',),
+         params={'self': 'self', 'data': data_kind, 'time': 'real'},
+         requires=lambda c: z3.And(NSTAGES >= 1, c.time >= 0,
+                                   z3.ForAll([z3.Int('k')], z3.Implies(
+                                       z3.And(z3.Int('k') >= 0, z3.Int('k') < NSTAGES),
+                                       DATA[5 + 4 * z3.Int('k')] > 0))),      # positive durations
+         raises={'ValueError': None, 'ZeroDivisionError': None},   # exp(curve) == 1 is possible for the uninterpreted exp
+         ensures=[('breakpoints-betweenness-and-hold-after-the-end', at_post)],
+         loops={0: Loop(inv=at_inv, kinds={
+             'target_level': 'real', 'target_dur': 'real', 'end_time': 'real',
+             'begin_time': 'real', 'start_level': 'real', 'shape': 'real', 'pos': 'real',
+             'curve': 'real'})},
+         fields={'Env': {}},
+         hooks={'compare': h_compare}, class_modules={'Env': F}, native=False,
+         inline=('pow', 'cos', 'sin', 'exp', 'sqrt'),
+         note='transcendental shapes (exp, sin, wel, sqr, cub, curve != 0) are bounded only')
